@@ -474,8 +474,11 @@ def check(pid, conf, tier, seed, workdir, replay, t0):
             cov[k[2:]] = v
     ev = {"property_id": pid, "tier": tier, "seed": seed, "level": "proof", "coverage": cov,
           "assumptions": conf.get("assumptions", []), "wall_s": round(wall, 2), "violations": len(violations)}
-    os.makedirs(os.path.join(VERIF, "evidence"), exist_ok=True)
-    json.dump(ev, open(os.path.join(VERIF, "evidence", pid + ".json"), "w"), indent=1, ensure_ascii=False)
+    # evidence describes runs against /repo itself; a run against a scratch copy (VERIF_REPO, mutation trials) keeps its
+    # record under .work so that it never replaces the evidence of the real tree
+    evdir = os.path.join(VERIF, "evidence") if os.path.abspath(REPO) == "/repo" else os.path.join(WORK, "evidence-scratch")
+    os.makedirs(evdir, exist_ok=True)
+    json.dump(ev, open(os.path.join(evdir, pid + ".json"), "w"), indent=1, ensure_ascii=False)
 
     for line in known_lines:
         print(line)
